@@ -41,9 +41,10 @@ def simple_block(name, natoms, nrexcl=1, multi=False, ifdef=True, extra_excl=Fal
     return BlockSpec(name, atoms, inters, nrexcl)
 
 
-def multi_res_block(name="MUL", nrexcl=1):
-    """a block that spans two residues (used through the from_itp label)"""
-    atoms = [("m1", "TM1", 1, 0.0, 20.0, 1, "MA"), ("m2", "TM2", 1, 0.5, 21.0, 1, "MA"), ("m3", "TM3", 2, -0.5, 22.0, 2, "MB")]
+def multi_res_block(name="MUL", nrexcl=1, first_resid=1):
+    """a block that spans two residues (used through the from_itp label); its own residue numbers start at `first_resid`"""
+    f = first_resid
+    atoms = [("m1", "TM1", 1, 0.0, 20.0, f, "MA"), ("m2", "TM2", 1, 0.5, 21.0, f, "MA"), ("m3", "TM3", 2, -0.5, 22.0, f + 1, "MB")]
     inters = [("bonds", (0, 1), ["1", "0.25", "5000"], {}), ("bonds", (1, 2), ["1", "0.26", "6000"], {}),
               ("angles", (0, 1, 2), ["2", "100", "33"], {})]
     return BlockSpec(name, atoms, inters, nrexcl)
